@@ -46,6 +46,9 @@ PANEL_TRANSFORMERS = {
     "DerivativeSlopeTransformer": {}, "PlateauFinder": {"value": [0.0]},
     "RandomIntervalFeatureExtractor": {"n_intervals": [2, "sqrt"]}, "TruncationTransformer": {},
     "MatrixProfile": {"m": [4]}, "SFA": {"word_length": [4], "window_size": [8]},
+    # (no Parallel inside: only the input-mutation, repeat-call and pickle clauses bite here)
+    "Rocket": {"num_kernels": [20, 50], "normalise": [True, True, False]},
+    "MiniRocket": {"num_features": [84]},
 }
 CLASSIFIERS = {
     "TimeSeriesForestClassifier": {"n_estimators": [3, 5], "min_interval": [3]},
@@ -93,10 +96,18 @@ def generate(prop, rng, tier):
         for _ in range(rng.randint(3, 8)):
             if scen["fh_fit"] and C.needs_fh_at_fit(spec):
                 calls.append({"m": "predict", "fh": steps})
+            elif rng.random() < 0.2:
+                # in-sample / mixed horizons (a forecaster that cannot do them must fail the
+                # same way on the twin)
+                calls.append({"m": "predict", "fh": rng.choice([[-2, -1, 0], [-1, 1, 2], [0], [-3, 2]])})
             else:
                 calls.append({"m": "predict", "fh": sorted(rng.sample(range(1, 8), rng.randint(1, 3)))})
     elif cat == "series":
-        if rng.random() < 0.55:
+        r0 = rng.random()
+        if r0 < 0.1:
+            spec = {"kind": "detrend", "forecaster": {"kind": "naive", "strategy": rng.choice(["mean", "last", "drift"]),
+                                                      "sp": 1, "window_length": rng.choice([3, 4])}}
+        elif r0 < 0.55:
             spec = C.gen_transformer(rng)
         else:
             k = rng.choice(SERIES_EXTRA)
@@ -124,6 +135,9 @@ def generate(prop, rng, tier):
         scen["params"] = {k: rng.choice(v) for k, v in PANEL_TRANSFORMERS[name].items()}
         scen["panel"] = {"n": rng.randint(5, 9), "cols": rng.choice([1, 1, 2]), "len": rng.choice([16, 20])}
         scen["container"] = rng.choice(["nested_series", "nested_series", "nested_array", "numpy3d"])
+        if name in ("Rocket", "MiniRocket"):
+            scen["container"] = rng.choice(["nested_series", "numpy3d", "numpy3d"])
+            scen["panel"]["cols"] = 1
         calls = [{"m": "transform", "which": rng.choice(["train", "test"])}
                  for _ in range(rng.randint(3, 6))]
     else:
